@@ -29,10 +29,10 @@ MANIFEST = {
             "d0e97e1 and 8832b60; the earlier _refuted witnesses of these two defects are replaced by these theorems); plus the "
             "remaining _refuted theorems (vm_compute witnesses) where the faithful model of the current code violates the "
             "property text. Tied to /repo by a K-exact correspondence executed on every run.",
-    "note": "partial: the factorization itself is not modelled here (capacities only); system-allocator failure at an "
+    "note": "?user_malloc / ?user_free (two-ended user stack, alignment of tail blocks, capacity tests, critical section checked per path) are RE-TRANSLATED from p?memory.c on every run (coq/UstackGen.v) and proved equal to the model (UstackTie.v, no hypotheses; c14_source_ustack_is_model, c14_source_block_inside_buffer, c14_source_tail_block_aligned). partial: the factorization itself is not modelled here (capacities only); system-allocator failure at an "
             "arbitrary site is enumerated (fault flavour), not proved; int_t overflow / float->int conversion beyond 2^31 "
             "not modelled; thread interleavings inside WorkInit are modelled (run_sched) but only observed at call granularity.",
-    "technique": "Coq theorems about a hand-written Gallina model + executed model-vs-C correspondence (K-exact) + "
+    "technique": "Coq theorems about a Gallina model whose allocator core is proved equal to a translation of the C source regenerated on every run + executed model-vs-C correspondence (K-exact) + "
                  "extracted, proved block oracle on the implementation's offsets + fault enumeration",
     "design_ref": "DESIGN.md section 5 / C14",
 }
